@@ -48,6 +48,7 @@ class ItemSpec:
         self.rewrites = []
         self.external_body = False
         self.pub_fields = False
+        self.stub_body = False
         self.split_arms = []
         self.props = []
         self.line = line
@@ -128,6 +129,11 @@ def parse_vspec(path):
                 cur_item.external_body = True
             elif key == "pub_fields":
                 cur_item.pub_fields = True
+            elif key == "external_body_stub":
+                # trusted function whose body cannot even be type-checked in the unit (missing
+                # dependencies): keep the signature, replace the body by unimplemented!()
+                cur_item.external_body = True
+                cur_item.stub_body = True
             elif key == "split_or_arm":
                 cur_item.split_arms.append((_unquote(rest), ln))
             elif key == "props":
@@ -248,6 +254,13 @@ def emit_item(spec, repo, out, stats, vspec_path, cache):
                 ins(ls, b, "line_before")
             else:
                 ins(le + 1, b, "line_before")
+    if spec.stub_body:
+        if item.body_open is None:
+            raise Lost("%s has no body to stub" % fn)
+        # cut the body: everything from '{' to the matching '}' is replaced
+        stub_cut = (item.body_open, item.end)
+    else:
+        stub_cut = None
     # ---- R12: split or-pattern match arms (Verus: no or-pattern with bindings by &mut) ----
     # `A(x) | B(x) => { body }` becomes `A(x) => { body } B(x) => { body' }` where body' is the
     # same token sequence with comments dropped, written on one line so that line numbers of
@@ -332,6 +345,24 @@ def emit_item(spec, repo, out, stats, vspec_path, cache):
             pieces.append(("ins", b, mode))
         cur = off
     pieces.append(("src", src[cur:item.end], rsx.line_of(src, cur)))
+    if stub_cut:
+        # keep only the text before the body (contract insertions at the signature included)
+        new_pieces = []
+        pos = text_start
+        for p in pieces:
+            if p[0] != "src":
+                if pos <= stub_cut[0]:
+                    new_pieces.append(p)
+                continue
+            a, bnd = pos, pos + len(p[1])
+            if bnd <= stub_cut[0]:
+                new_pieces.append(p)
+            elif a < stub_cut[0]:
+                new_pieces.append(("src", p[1][:stub_cut[0] - a], p[2]))
+            pos = bnd
+        new_pieces.append(("src", "{ unimplemented!() /* body not compiled in this unit: trusted */ }", rsx.line_of(src, stub_cut[0])))
+        pieces = new_pieces
+        stats.setdefault("stubbed_bodies", []).append(fn)
     if edits:
         # re-slice with edits applied: walk pieces again with absolute offsets
         edits.sort()
@@ -393,6 +424,18 @@ def emit_item(spec, repo, out, stats, vspec_path, cache):
                     pieces[i] = ("src", t, p[2])
                     stats["rewrites"].setdefault("R1", 0)
                     stats["rewrites"]["R1"] += n1
+    # R19 (automatic): `&str` in the type of a `const` item gets the explicit `'static` lifetime
+    # (elided lifetimes in constants are rejected inside verus!)
+    if spec.kind == "const":
+        for i, p in enumerate(pieces):
+            if p[0] == "src":
+                eq = p[1].find("=")
+                if eq > 0:
+                    head, n19 = re.subn(r"&str\b", "&'static str", p[1][:eq])
+                    if n19:
+                        pieces[i] = ("src", head + p[1][eq:], p[2])
+                        stats["rewrites"].setdefault("R19", 0)
+                        stats["rewrites"]["R19"] += n19
     # external_body: attribute in front
     if spec.external_body:
         out.add("#[verifier::external_body]", "gen", None, None, fn)
